@@ -306,3 +306,11 @@ Definition proc_sc (t : text) : Tree := tList (map (fun e => tStr (strip e)) (sp
 Definition fmt_naive (v : Tree) : text :=
   match tZ (tnth v 0) with 0 => [78;111;110;101] | _ => str_of v end.
 Definition proc_naive (t : text) : Tree := tStr t.
+
+(* ---- number text given by finite tables (how the correspondence run and the examples
+   instantiate the oracle: the harness evaluates str(numpy.float64) and float() and sends
+   the graph of both functions restricted to the case) ---- *)
+Fixpoint tab_fmt (tab : list (Z * text)) (v : Z) : text :=
+  match tab with [] => [] | (k, t) :: r => if k =? v then t else tab_fmt r v end.
+Fixpoint tab_parse (tab : list (text * Z)) (t : text) : option Z :=
+  match tab with [] => None | (k, v) :: r => if text_eqb k t then Some v else tab_parse r t end.
